@@ -677,7 +677,7 @@ def scale(fn, r, extra=0):
 
 
 MAG_FACTOR = mpf("1e-13")   # ~1000 ulp of the tracked magnitude
-UNDERFLOW = mpf("1e-290")    # doubles flush to zero / lose precision below ~1e-308
+UNDERFLOW = mpf("1e-200")    # doubles flush to zero / lose precision below ~1e-308
 
 
 def close(obs, ref, q=0.0, sc=0, rel=1e-9, abs_=0.0, mag=0):
